@@ -109,6 +109,43 @@ Definition reopen (st : state) (k : pkg) : state * sx :=
       end
   end.
 
+(* C16: save, open the saved container, use read operations only (they do not return a package: by construction they
+   cannot change it), close; reports (number of streams the session rewrote, container identical) *)
+Definition entries_eqb (a b : list (str * bytes)) : bool :=
+  list_eqb (fun x y => str_eqb (fst x) (fst y) && str_eqb (snd x) (snd y)) a b.
+Definition container_eqb (a b : container) : bool :=
+  str_eqb (ct_clsid a) (ct_clsid b) && entries_eqb (ct_entries a) (ct_entries b).
+Definition readonly_session (st : state) (k : pkg) : state * sx :=
+  match pkg_flush k with
+  | None => (st, SL [SY "any"])
+  | Some k1 =>
+      match pkg_open (st_prof st) (k_cont k1) with
+      | Ok k2 =>
+          match pkg_flush k2 with
+          | Some k3 =>
+              let same := container_eqb (k_cont k3) (k_cont k1) in
+              (mkstate (st_prof st) (Some k2), SL [SY "ok"; SL [sx_N (if same then 0 else 1)%N; sx_bool same]])
+          | None => (st, SL [SY "any"])
+          end
+      | Err => (mkstate (st_prof st) None, SY "err")
+      | Panic => (mkstate (st_prof st) None, SY "panic")
+      end
+  end.
+
+(* C11: save, add the two digital-signature entries to the container (as a signing tool would), open the result *)
+Definition add_signature (st : state) (k : pkg) : state * sx :=
+  match pkg_flush k with
+  | None => (st, SL [SY "any"])
+  | Some k1 =>
+      let c1 := ct_write (k_cont k1) DIGITAL_SIGNATURE_STREAM_NAME [1; 2; 3]%N in
+      let c2 := ct_write c1 MSI_DIGITAL_SIGNATURE_EX_STREAM_NAME [4; 5]%N in
+      match pkg_open (st_prof st) c2 with
+      | Ok k2 => (mkstate (st_prof st) (Some k2), SL [SY "ok"; SL []])
+      | Err => (mkstate (st_prof st) None, SY "err")
+      | Panic => (mkstate (st_prof st) None, SY "panic")
+      end
+  end.
+
 Definition pkg_cmd (st : state) (name : string) (args : list sx) : option (state * sx) :=
   let prof := st_prof st in
   match name, args with
@@ -226,6 +263,8 @@ Definition pkg_cmd (st : state) (name : string) (args : list sx) : option (state
                                   | None => (st, SL [SY "any"])
                                   end))
   | "reopen", [SY _] => Some (with_pkg st (fun k => reopen st k))
+  | "add_signature", [] => Some (with_pkg st (fun k => add_signature st k))
+  | "readonly_session", [SY _] => Some (with_pkg st (fun k => readonly_session st k))
   | "raw", [] => Some (with_pkg st (fun k => (st, raw_sx k)))
   | "rows", [] => Some (with_pkg st (fun k => (st, all_rows_sx prof k)))
   | "snapshot", [] =>
